@@ -95,3 +95,6 @@ mod tests {
         }
     }
 }
+
+/// record counts at and around the powers of two a writer could plausibly chunk its work by
+pub const POW2_COUNTS: [usize; 18] = [255, 256, 257, 511, 512, 513, 1023, 1024, 1025, 2047, 2048, 2049, 4095, 4096, 4097, 8191, 8192, 8193];
